@@ -22,41 +22,98 @@ def run(ctx):
         # a history that reaches an error path or a second section
         return req.startswith("c18 ") and (" e 0 " not in " " + resp + " " or " fn f2" in req or " glob " in req)
 
-    # known findings account for many mismatching lines: keep them all so that none hides a new one
+    # lines of listed findings never count against the cap on recorded failures (vlib/core.py), so a small cap is enough
     # per-process file names: two runs of this check at the same time must not share ops/impl/model files
     tag = "-%d" % os.getpid()
-    mism = ctx.differential("c18", n, nontrivial=nontrivial, max_report=10**7, tag=tag)
+    mism = ctx.differential("c18", n, nontrivial=nontrivial, max_report=50, tag=tag)
     dist = ctx.coverage.get("input_distribution", {})
     if "c18" + tag in dist:
         dist["c18"] = dist.pop("c18" + tag)
-    if mism == 0:
+    # listed findings account for mismatching lines on every run: keep the files only when something unlisted failed
+    if mism is not None and getattr(ctx, "_unlisted", 0) == 0 and not ctx.corr_failures:
         for ext in (".ops", ".impl", ".model", ".stats.json"):
             try:
                 os.remove(os.path.join(ctx.dir, "c18" + tag + ext))
             except OSError:
                 pass
     ctx.coverage["exhaustive"] = False
+    ctx.coverage["measured_only"] = (
+        "theorems are about the executable model (Model/Ctx.lean); the tie to the Go code is the exact comparison + "
+        "acceptor on generated histories; absence of panics is measured, not proved")
+    # lower bounds on what was actually judged: a generator or harness change that silently stops producing a
+    # stream must not look like success (floors are about a third of what seed 1 yields per 20000 histories)
+    if mism is not None and not ctx.replay:
+        d = dist.get("c18", {})
+        oc, gen = d.get("outcome_classes", {}), d.get("generator", {})
+        scale = n / 20000.0
+        floors_oc = {"ok": 2400, "builder_error": 1600, "output_pass_error": 300, "nil_panic": 350,
+                     "pass_error_alloc": 100, "pass_error_duplabel": 250, "pass_error_endlabel": 200,
+                     "pass_error_membase": 250, "pass_error_memscale": 500, "pass_error_unklabel": 250}
+        floors_gen = {"route_pkg": 1500, "route_ctx": 5000, "main_via_flags": 800, "implement": 120,
+                      "mode_single_stub_break": 300, "mode_single_nil_argument": 350, "fn_bad_name": 250,
+                      "pragma_nl": 90, "doc_nl": 90, "raw_m:-:1:8": 20, "raw_m:-:1:1": 90, "raw_m:-:-:0": 150,
+                      "raw_m:1:1:0": 70, "press_over": 100, "mov_err": 300, "ins_bad": 300}
+        floors_gen.update({"nil_" + k: 30 for k in ("Load.src", "Load.dst", "Store.src", "Store.dst", "Dereference",
+                                                    "AddDatum", "AppendDatum", "Constraints", "Constraint",
+                                                    "Instruction", "Signature")})
+        low = []
+        for tbl, floors in ((oc, floors_oc), (gen, floors_gen)):
+            for k, fl in floors.items():
+                ctx.obligations += 1
+                if tbl.get(k, 0) < int(fl * scale):
+                    low.append(f"{k}: {tbl.get(k, 0)} < {int(fl * scale)}")
+                else:
+                    ctx.discharged += 1
+        if low:
+            ctx.obligation_failures.append(("c18: sample floors", "; ".join(low)))
     ctx.coverage["rule"] = (
-        "random histories of 1-80 builder calls (about 30% valid, 15% valid but for one compile-time fault, 25% with "
-        "builder-time faults, 20% with several compile-time faults, 10% mixed) over Function/TEXT, Attributes, Doc, Pragma, "
-        "SignatureExpr/Signature (valid and rejected), 22 instruction constructors with matching and non-matching operands, "
-        "Context.Instruction with a base-less memory operand, Label/Comment, Param/ParamIndex/Return/ReturnIndex and "
+        "random histories of 1-80 builder calls (about 26% valid, 15% valid but for one compile-time fault, 5% valid but "
+        "for one request that makes a stub unprintable, 6% valid but for one call with a nil argument, 20% with "
+        "builder-time faults, 18% with several compile-time faults, 10% mixed) over Function/TEXT (valid names, names "
+        "that are not Go identifiers, duplicates), Implement (without Package), Attributes, Doc, Pragma (plain / with a "
+        "line break), SignatureExpr/Signature (valid and rejected), 22 instruction constructors with matching and "
+        "non-matching operands, Context.Instruction with hand-built memory operands (no base; no base but index and "
+        "scale 1/2/4/8; index with scale 0), Label/Comment/Commentf, Param/ParamIndex/Return/ReturnIndex and "
         "Base/Len/Cap/Real/Imag/Index/Field/Dereference chains, Load/Store/Dereference (deducible, not deducible, bad "
         "component), AllocLocal, StaticGlobal/GLOBL/ConstData, DataAttributes, AddDatum/DATA (overlapping or not), "
         "AppendDatum, Constraints/Constraint/ConstraintExpr (valid/invalid), register-pressure functions around the "
-        "allocatable limit of each kind; 3 of 4 through build.Context methods, 1 of 4 through the package-level functions "
-        "on a swapped-in context; every call under recover; then Result() and build.Main with [Compile, Output(goasm), "
-        "Output(stubs)] into buffers. Exact comparison with the model: error count and class per fault, node count and "
-        "local size per function, datum count and size per data section, constraint count, order of file sections (line c18); status, which "
-        "outputs were written, diagnostic line count (line c18main). Acceptor (accept-c18): the property itself evaluated "
-        "on the implementation's outcome with fault counts computed by the model. c18max: LogError truncation "
-        "(MaxErrors > 0), not part of the property. Non-trivial = reaches an error path or has several sections.")
+        "allocatable limit of each kind, nil arguments to Load/Store/Dereference/AddDatum/AppendDatum/Constraints/"
+        "Constraint/Instruction/Signature; 3 of 4 through build.Context methods, 1 of 4 through the package-level "
+        "functions on a swapped-in context; every call under recover; then Result() and build.Main with [Compile, "
+        "Output(goasm), Output(stubs)] into buffers, 1 of 8 instead with the Config of build.NewFlags(-out -stubs -log -e "
+        "-pkg) into files. 34 fixed histories (witnesses of all listed findings, one per fault kind) run first. Exact "
+        "comparison with the model: error count and class per fault, node count and local size per function, datum count "
+        "and size per data section, constraint count, order of file sections (line c18); status, which outputs were "
+        "written, diagnostic line count (line c18main). Acceptor (accept-c18): the property itself (Spec) evaluated on "
+        "the implementation's outcome with fault counts computed by the model; histories with a nil argument are judged "
+        "by the acceptor only. Message classes are calibrated on every run by provoking each class once (line c18cal), "
+        "not matched by wording; unrecognised messages are the distinct class 'unknown'. c18max: LogError truncation "
+        "(MaxErrors > 0), not part of the property. Lower bounds on every outcome class and generator stream are "
+        "obligations. Non-trivial = reaches an error path or has several sections.")
     ctx.assumptions += [
         "operands-match-a-form, signature-expression-accepted and MOV-deducible are classifications made by the harness "
-        "from hand-written rules (instruction set forms, Go syntax, size/class table), not by the model",
+        "from hand-written rules (22-opcode form catalogue, Go syntax, size/class table), not by the model; that the "
+        "other ~6400 constructors reject operands matching no form is C06's business",
         "absence of panics is established by running every call under recover, not by a theorem (Lean functions are total)",
         "the register-pressure block makes n virtual registers of one kind pairwise interfere; allocation fails iff n "
         "exceeds the number of non-restricted physical registers of the kind in Gen.Regs",
-        "compile-time faults are compared as a set (the reported one must be among those present), not by pass order",
+        "compile-time faults are compared as a set (the reported one must be among those present), not by pass order; "
+        "a compile error whose message is none of the calibrated ones is accepted as long as status and outputs are right",
+        "the property's list of invalid requests is taken as is: requests avo does not validate and that are not on the "
+        "list are modelled as accepted (status 0, output written): AllocLocal with a negative size, AddDatum with a "
+        "negative offset (C13 lists the assembler's rejection), Label(\"\"), duplicate function names, duplicate data "
+        "section names, newlines in Comment; negative sizes/offsets and Label(\"\") are not generated",
+        "function names that are not Go identifiers and Doc/Pragma text with a line break are not on the list either: "
+        "the statement then demands only all-or-nothing (a failing generation writes nothing); the generated names are "
+        "ASCII (the model's identifier syntax is the ASCII part of Go's), the broken texts are 3 fixed ones",
+        "a call with a nil argument may be reported as an error or ignored (Spec allows both) but must not panic",
+        "Package(path) is never called (it runs `go list`; several messages for one call — one per package error — "
+        "would be outside 'one message per fault'); Implement is exercised only without a package",
+        "build.Generate itself (os.Exit, flag.CommandLine) is not run; its Config comes from build.NewFlags on a private "
+        "FlagSet. That -out/-stubs files are created (truncated) when the flags are parsed, so that a failing generation "
+        "leaves an empty file where the previous output was, is observed (stat flags_failure_truncated_previous_output) "
+        "but not judged: the observation points are Result() and what Main writes",
+        "component slots referenced by a request always exist (the driver answers bad-slot otherwise)",
     ]
     ctx.trusted.append("harness/c18.go shadow of signatures/components (steers generation, decides only the MOV-deducible flag)")
+    ctx.trusted.append("harness/c18.go calibration witnesses (one canonical request per message class)")
